@@ -6,7 +6,7 @@ from hexlib import _nib
 from trie.iter import NodeIterator
 
 ID = "C10"
-LEAN_IMPORTS = ["PyTrie.Props.C10", "PyTrie.Props.RawLevel"]
+LEAN_IMPORTS = ["PyTrie.Props.C10", "PyTrie.Props.RawLevel", "PyTrie.Props.NonVacuity2"]
 THEOREMS = [
     "PyTrie.Props.C10.plt_nibs",
     "PyTrie.Props.C10.stored_path_is_key",
@@ -21,6 +21,8 @@ THEOREMS = [
     "PyTrie.Props.C10.nodes_loop_is_preorder",
     "PyTrie.Props.Raw.next_key_refines",
     "PyTrie.Props.Raw.key_after_refines",
+    "PyTrie.Props.NonVacuity2.next_key_witness",
+    "PyTrie.Props.NonVacuity2.key_after_witness",
 ]
 RULE = ("tries built by generated histories (keys that are prefixes of other keys, the empty key, embedded nodes, values on "
         "branches, children 0 and 15); keys()/items()/values()/nodes() sequences and next(k) for every stored key, its "
